@@ -47,6 +47,9 @@ impl Clone for V {
     fn clone(&self) -> (r: V) ensures r@ == self@ { unimplemented!() }
 }
 impl V {
+    // BVector::from_element_generic(dim, U1, 0): the zero vector of the given dimension
+    #[verifier::external_body]
+    pub fn vx_zeros<D: Dimension>(dim: D) -> (r: V) ensures r@ == vzero(dim.size()) { unimplemented!() }
     #[verifier::external_body]
     pub fn as_slice(&self) -> (r: &[R]) ensures r@.len() == self@.len(), forall|i: int| 0 <= i < r@.len() ==> r@[i]@ == self@[i], slice_view(r) == self@ { unimplemented!() }
     #[verifier::external_body]
